@@ -9,9 +9,9 @@ INFO = {
                    "mock-state converters and adjusters, scale_drift_deposit_limit, the venue arms of the oracle constructor): no wrapping / saturating / "
                    "unchecked arithmetic, no unchecked to_num, no narrowing or sign-changing integer cast, no plain shift, no operator arithmetic on fixed-point "
                    "values, except the reasoned sites frozen by (function, kind, detail); (R2) Drift rounding: decrement passes round_up = true, increment "
-                   "false, the +1 happens only under round_up && balance != 0, and the scaled balance / token amount formulas multiply then divide in the "
+                   "false, the +1 happens only when round_up is set (never in the deposit direction), and the scaled balance / token amount formulas multiply then divide in the "
                    "floor direction; (R3) staleness predicates: reserve.slot < current slot, last_interest_ts < now, last_update_slot < clock.slot; (R4) "
-                   "zero-supply conversions return None (exact == 0 guards) and the collateral<->liquidity formulas use the right numerator / denominator; "
+                   "zero-supply conversions return None (explicit == 0 guard or checked_div by that supply) and the collateral<->liquidity formulas use the right numerator / denominator; "
                    "(R5) total-supply sign wiring: every fee term is subtracted from the (available + borrowed) total; (R6) the oracle arms adjust price and "
                    "confidence by total_liq / total_col of the venue account, only when total_col > 0. Not decided: monotonicity, 'never exceeds price x "
                    "exact rate', round-trip no-gain (numeric over 128-bit domains).",
